@@ -25,8 +25,8 @@ ENGINE = "diff"
 # (N, B) universes per tier; each is cut into slices (content id of key 1 in t1 / t2) that run as
 # separate TLC processes, because TLC computes initial states with a single thread
 TIERS = {
-    "quick": {"universes": [(4, 3, 1), (4, 1, 1)], "rec": 200},
-    "thorough": {"universes": [(6, 3, 9), (6, 1, 9)], "rec": 4000},
+    "quick": {"universes": [(4, 3, 1), (4, 1, 1)], "rec": 200, "huge": 1030},
+    "thorough": {"universes": [(6, 3, 9), (6, 1, 9)], "rec": 4000, "huge": 2050},
 }
 
 
@@ -222,7 +222,7 @@ def run(tier, seed):
     # (C)
     recfile = os.path.join(vlib.sub("scn"), "diff-rec.ndjson")
     nrec = TIERS[tier]["rec"]
-    p = vlib.run_record(ENGINE, ["--seed", str(seed), "--n", str(nrec), "--out", recfile])
+    p = vlib.run_record(ENGINE, ["--seed", str(seed), "--n", str(nrec), "--out", recfile, "--huge", str(TIERS[tier]["huge"])])
     if p.returncode != 0:
         raise vlib.Inconclusive("recorder failed: " + p.stderr[-2000:])
     t0 = time.time()
